@@ -15,8 +15,10 @@ WHOLE_CONTRACT_PROPS = {'C17', 'C08'}
 TRUSTED = [
     'environment models /verif/env/env.c: element operations (construct/destroy/assign/swap/compare), allocator (allocate/deallocate/max_size/select_on_container_copy_construction/==), scalar helpers - ASSUMED contracts of the container\'s parameters',
     'algorithm summaries in /verif/env/env.c for std::copy/copy_n/move/move_backward/fill/fill_n/swap_ranges (written from [alg.*]; "libstdc++ implements the standard" is assumed)',
+    'std::equal / std::lexicographical_compare / std::remove (C16): uninterpreted, element-consistent results with recorded arguments - the algorithms themselves are assumed, the contracts decide which one is called on which ranges and how the result is combined',
+    'caller iterator models (forward, single-pass) and generator model in /verif/env/env.c: protocol violations are failed preconditions',
     'lowering rules r1-r15 and r9b of /verif/emit/emit.py (clang 14 JSON AST of the instantiated members -> C); exceptions lowered to a flag; destructor calls of RAII locals inserted by scope rules',
-    'clang 14 front end (template instantiation, overload resolution, exception-specification evaluation through the IR nounwind attribute)',
+    'clang 14 front end (template instantiation, overload resolution; exception specifications: IR nounwind attribute for lowering, noexcept-operator probe TU for the declared specification)',
     'CBMC 6.11.0 (goto-cc, goto-instrument --dfcc, SAT back end MiniSat 2.2.1)',
 ]
 ASSUMPTIONS = [
@@ -27,6 +29,7 @@ ASSUMPTIONS = [
     'element payload is ghost state over 2 arbitrary watched cells + 1 tracked temporary cell and one arbitrary watched block (Skolemisation, DESIGN.md 4.2)',
     'left-to-right evaluation of call arguments',
     'exception objects collapsed to kinds {length_error, out_of_range, element, bad_alloc, iterator, generator}',
+    'single-pass loops whose body reallocates are bounded stand-ins (listed under bounded_stand_ins with their bound; never counted in obligations/discharged); value flow through them is composed on paper from the per-iteration contract',
     'induction over call histories (every operation requires and re-establishes the invariant) is a paper step over the machine-checked per-call proofs',
 ]
 
